@@ -957,7 +957,7 @@ func ruleNumericUnconditional(c *Ctx, rule string) {
 		return
 	}
 	var call *ssa.Call
-	core.EachInstr(m.E, func(i ssa.Instruction) {
+	c.eachFamOwn(m.E, func(i ssa.Instruction) {
 		if cl, ok := i.(*ssa.Call); ok && cl.Call.StaticCallee() == ext {
 			call = cl
 		}
